@@ -75,8 +75,8 @@ Proof.
 Qed.
 
 (* ------------------------------------------------------------------ identity on variable-free bodies *)
-(* a byte that ParseTemplate copies unchanged: not '$', below 0x80 *)
-Definition tpl_plain_char (c : ascii) : bool := negb (tpl_is_char 36 c) && (tpl_code c <? 128)%N.
+(* a byte that ParseTemplate copies unchanged: anything but '$' *)
+Definition tpl_plain_char (c : ascii) : bool := negb (tpl_is_char 36 c).
 
 Definition tpl_plain_atom (ft : tpl_ftype) (a : tpl_atom) : bool :=
   match a with
@@ -114,10 +114,8 @@ Proof.
   { induction s as [|c r IH]; simpl in *.
     - exists []. split; reflexivity.
     - apply andb_true_iff in H. destruct H as [Hc Hr]. destruct (IH Hr) as [segs [Hs Hsub]].
-      unfold tpl_plain_char in Hc. apply andb_true_iff in Hc. destruct Hc as [Hd Ha].
-      apply negb_true_iff in Hd. rewrite Hd, Hs. simpl.
-      exists (TpsChar c :: segs). split; [reflexivity|]. simpl. rewrite Hsub.
-      unfold tpl_byte_to_string. rewrite Ha. reflexivity. }
+      unfold tpl_plain_char in Hc. apply negb_true_iff in Hc. rewrite Hc, Hs. simpl.
+      exists (TpsChar c :: segs). split; [reflexivity|]. simpl. rewrite Hsub. reflexivity. }
   destruct G as [segs [Hs Hsub]]. rewrite Hs. exact Hsub.
 Qed.
 
@@ -164,39 +162,40 @@ Lemma tpl_resolve_none r decls call env :
 Proof. intros He. unfold tpl_resolve. rewrite He. reflexivity. Qed.
 
 (* ------------------------------------------------------------------ Overwrite *)
-Lemma tpl_apply_all_app fw p l1 l2 :
-  tpl_apply_all fw p (l1 ++ l2) =
-  match tpl_apply_all fw p l1 with inl e => inl e | inr p' => tpl_apply_all fw p' l2 end.
+Lemma tpl_apply_all_app p l1 l2 :
+  tpl_apply_all p (l1 ++ l2) =
+  match tpl_apply_all p l1 with inl e => inl e | inr p' => tpl_apply_all p' l2 end.
 Proof.
   revert p. induction l1 as [|[j|] l1 IH]; intros p; simpl; auto.
-  destruct (tpl_apply fw p j); auto.
+  destruct (tpl_apply p j); auto.
 Qed.
 
 Lemma tpl_overwrite_snoc_none p l : tpl_overwrite p (l ++ [None]) = tpl_overwrite p l.
-Proof. unfold tpl_overwrite. rewrite tpl_apply_all_app. destruct (tpl_apply_all false p l); reflexivity. Qed.
+Proof. unfold tpl_overwrite. rewrite tpl_apply_all_app. destruct (tpl_apply_all p l); reflexivity. Qed.
 
 Lemma tpl_overwrite_snoc_some p l j q :
   tpl_overwrite p (l ++ [Some j]) = inr q ->
   exists p', tpl_overwrite p l = inr p' /\ tpl_unmarshal p' j = inr q.
 Proof.
   unfold tpl_overwrite, tpl_unmarshal. rewrite tpl_apply_all_app.
-  destruct (tpl_apply_all false p l) as [e|p']; [discriminate|]. simpl.
-  destruct (tpl_apply false p' j) as [e|q'] eqn:H; [discriminate|]. intros E. inversion E; subst. eauto.
+  destruct (tpl_apply_all p l) as [e|p']; [discriminate|]. simpl.
+  destruct (tpl_apply p' j) as [e|q'] eqn:H; [discriminate|]. intros E. inversion E; subst. eauto.
 Qed.
 
+(* one object overrides exactly the fields it carries *)
 Lemma tpl_unmarshal_fields p j q :
   tpl_unmarshal p j = inr q ->
-  tpp_pit q = tpj_end j /\ tpp_oot q = tpj_start j /\ tpp_expand q = tpj_expand j /\ tpp_pagesize q = tpj_pagesize j /\
+  tpp_pit q = (match tpj_end j with Some t => Some t | None => tpp_pit p end) /\
+  tpp_oot q = (match tpj_start j with Some t => Some t | None => tpp_oot p end) /\
+  tpp_expand q = (match tpj_expand j with [] => tpp_expand p | l => l end) /\
+  tpp_pagesize q = (if tpj_pagesize j =? 0 then tpp_pagesize p else tpj_pagesize j) /\
   tpl_apply_sort (tpp_column p) (tpp_order p) (tpj_sort j) = inr (tpp_column q, tpp_order q) /\
   tpv_insertion (tpp_opts q) = tpl_opt_or (tpj_insertion j) (tpv_insertion (tpp_opts p)) /\
   tpv_group (tpp_opts q) = tpl_opt_or (tpj_group j) (tpv_group (tpp_opts p)).
 Proof.
   unfold tpl_unmarshal, tpl_apply. destruct (tpj_pagesize j <? 0); [discriminate|].
   destruct (tpl_apply_sort (tpp_column p) (tpp_order p) (tpj_sort j)) as [e|[c o]]; [discriminate|].
-  intros E. inversion E; subst; clear E. simpl. rewrite andb_false_r.
-  repeat split;
-    first [ reflexivity | destruct (tpj_end j); reflexivity | destruct (tpj_start j); reflexivity
-          | destruct (tpj_expand j); reflexivity ].
+  intros E. inversion E; subst; clear E. simpl. repeat split; reflexivity.
 Qed.
 
 Lemma tpl_apply_sort_absent c o : tpl_apply_sort c o EmptyString = inr (c, o).
@@ -218,74 +217,48 @@ Proof.
   intros H. destruct (tpl_unmarshal_fields p j q H) as (Hp & Ho & He & Hs & Hsort & Hi & Hg).
   revert H. unfold tpl_unmarshal, tpl_apply. destruct (tpj_pagesize j <? 0); [discriminate|].
   rewrite (tpl_apply_sort_idem _ _ _ _ _ Hsort). intros _.
-  destruct q as [qp qo qe qc qor qs [qi qg]]. simpl in *. rewrite andb_false_r. subst.
-  destruct (tpj_end j), (tpj_start j), (tpj_expand j), (tpj_insertion j), (tpj_group j); reflexivity.
+  destruct q as [qp qo qe qc qor qs [qi qg]]. simpl in *. subst.
+  destruct (tpj_end j), (tpj_start j), (tpj_expand j), (tpj_insertion j), (tpj_group j), (tpj_pagesize j =? 0) eqn:E;
+    try rewrite E; reflexivity.
 Qed.
 
 Lemma tpl_overwrite_idem p l j :
   tpl_overwrite p (l ++ [Some j; Some j]) = tpl_overwrite p (l ++ [Some j]).
 Proof.
   unfold tpl_overwrite. rewrite !tpl_apply_all_app.
-  destruct (tpl_apply_all false p l) as [e|p']; [reflexivity|]. simpl.
-  destruct (tpl_apply false p' j) as [e|q] eqn:H; [reflexivity|].
-  change (tpl_apply false q j) with (tpl_unmarshal q j). rewrite (tpl_unmarshal_idem p' j q H). reflexivity.
+  destruct (tpl_apply_all p l) as [e|p']; [reflexivity|]. simpl.
+  destruct (tpl_apply p' j) as [e|q] eqn:H; [reflexivity|].
+  change (tpl_apply q j) with (tpl_unmarshal q j). rewrite (tpl_unmarshal_idem p' j q H). reflexivity.
 Qed.
 
-(* the field-wise reading agrees with the code on one object when the object mentions every one of
-   endTime / startTime / expand / pageSize that currently has a non-zero value *)
-Definition tpl_dominates (j : tpl_pjson) (p : tpl_params) : bool :=
-  (match tpj_end j, tpp_pit p with None, Some _ => false | _, _ => true end) &&
-  (match tpj_start j, tpp_oot p with None, Some _ => false | _, _ => true end) &&
-  (match tpj_expand j, tpp_expand p with [], _ :: _ => false | _, _ => true end) &&
-  ((negb (tpj_pagesize j =? 0)) || (tpp_pagesize p =? 0)).
-
-Lemma tpl_apply_dominates p j : tpl_dominates j p = true -> tpl_apply true p j = tpl_apply false p j.
+(* the shape RunQuery uses: defaults, template object, request object *)
+Lemma tpl_overwrite_two p t rq q :
+  tpl_overwrite p [Some t; Some rq] = inr q ->
+  tpp_pit q = (match tpj_end rq with Some x => Some x | None => match tpj_end t with Some x => Some x | None => tpp_pit p end end) /\
+  tpp_oot q = (match tpj_start rq with Some x => Some x | None => match tpj_start t with Some x => Some x | None => tpp_oot p end end) /\
+  tpp_expand q = (match tpj_expand rq with [] => match tpj_expand t with [] => tpp_expand p | l => l end | l => l end) /\
+  tpp_pagesize q = (if tpj_pagesize rq =? 0 then if tpj_pagesize t =? 0 then tpp_pagesize p else tpj_pagesize t else tpj_pagesize rq).
 Proof.
-  unfold tpl_dominates, tpl_apply. intros H.
-  apply andb_true_iff in H. destruct H as [H Hps]. apply andb_true_iff in H. destruct H as [H Hex].
-  apply andb_true_iff in H. destruct H as [Hpit Hoot].
-  destruct (tpj_pagesize j <? 0); [reflexivity|].
-  destruct (tpl_apply_sort (tpp_column p) (tpp_order p) (tpj_sort j)) as [e|[c o]]; [reflexivity|].
-  f_equal. f_equal.
-  - destruct (tpj_end j), (tpp_pit p); try reflexivity; discriminate.
-  - destruct (tpj_start j), (tpp_oot p); try reflexivity; discriminate.
-  - destruct (tpj_expand j), (tpp_expand p); try reflexivity; discriminate.
-  - rewrite andb_true_r, andb_false_r. destruct (tpj_pagesize j =? 0) eqn:E; [|reflexivity].
-    simpl in Hps. apply Z.eqb_eq in E, Hps. congruence.
+  unfold tpl_overwrite. simpl.
+  destruct (tpl_apply p t) as [e|p1] eqn:E1; [discriminate|].
+  destruct (tpl_apply p1 rq) as [e|p2] eqn:E2; [discriminate|]. intros E; inversion E; subst.
+  destruct (tpl_unmarshal_fields p t p1 E1) as (A1 & B1 & C1 & D1 & _).
+  destruct (tpl_unmarshal_fields p1 rq q E2) as (A2 & B2 & C2 & D2 & _).
+  rewrite A2, B2, C2, D2, A1, B1, C1, D1. repeat split; reflexivity.
 Qed.
 
-(* sort and the volumes options ARE merged field by field, whatever the objects *)
-Lemma tpl_apply_sort_opts_same p p' j q q' :
-  tpp_column p = tpp_column p' -> tpp_order p = tpp_order p' -> tpp_opts p = tpp_opts p' ->
-  tpl_apply true p j = inr q -> tpl_apply false p' j = inr q' ->
-  tpp_column q = tpp_column q' /\ tpp_order q = tpp_order q' /\ tpp_opts q = tpp_opts q'.
+(* objects without pageSize keep the page size (in particular the configured default) *)
+Lemma tpl_overwrite_keeps_pagesize l : forall p q,
+  Forall (fun o => match o with Some j => tpj_pagesize j = 0 | None => True end) l ->
+  tpl_overwrite p l = inr q -> tpp_pagesize q = tpp_pagesize p.
 Proof.
-  unfold tpl_apply. intros Hc Ho Hop. rewrite Hc, Ho, Hop. destruct (tpj_pagesize j <? 0); [discriminate|].
-  destruct (tpl_apply_sort (tpp_column p') (tpp_order p') (tpj_sort j)) as [e|[c o]]; [discriminate|].
-  intros E1 E2. inversion E1; inversion E2; subst. simpl. auto.
-Qed.
-
-Lemma tpl_apply_err_same p p' j :
-  tpp_column p = tpp_column p' -> tpp_order p = tpp_order p' ->
-  (exists e, tpl_apply true p j = inl e) <-> (exists e, tpl_apply false p' j = inl e).
-Proof.
-  unfold tpl_apply. intros Hc Ho. rewrite Hc, Ho. destruct (tpj_pagesize j <? 0); [split; eauto|].
-  destruct (tpl_apply_sort (tpp_column p') (tpp_order p') (tpj_sort j)) as [e|[c o]]; split; intros [e' H]; eauto; discriminate.
-Qed.
-
-Lemma tpl_fieldwise_sort_opts l : forall p p' q q',
-  tpp_column p = tpp_column p' -> tpp_order p = tpp_order p' -> tpp_opts p = tpp_opts p' ->
-  tpl_fieldwise p l = inr q -> tpl_overwrite p' l = inr q' ->
-  tpp_column q = tpp_column q' /\ tpp_order q = tpp_order q' /\ tpp_opts q = tpp_opts q'.
-Proof.
-  unfold tpl_fieldwise, tpl_overwrite.
-  induction l as [|[j|] l IH]; simpl; intros p p' q q' Hc Ho Hop H1 H2.
-  - inversion H1; inversion H2; subst. auto.
-  - destruct (tpl_apply true p j) as [e|p1] eqn:E1; [discriminate|].
-    destruct (tpl_apply false p' j) as [e|p2] eqn:E2; [discriminate|].
-    destruct (tpl_apply_sort_opts_same p p' j p1 p2 Hc Ho Hop E1 E2) as (A & B & C).
-    eapply IH; eauto.
-  - eapply IH; eauto.
+  unfold tpl_overwrite. induction l as [|[j|] l IH]; simpl; intros p q HF H.
+  - inversion H; reflexivity.
+  - inversion HF as [|x xs Hj Hl]; subst.
+    destruct (tpl_apply p j) as [e|p1] eqn:E; [discriminate|].
+    destruct (tpl_unmarshal_fields p j p1 E) as (_ & _ & _ & D & _).
+    rewrite (IH p1 q Hl H), D, Hj. reflexivity.
+  - inversion HF; subst. eauto.
 Qed.
 
 (* ------------------------------------------------------------------ RunQuery = direct query *)
@@ -383,17 +356,17 @@ Section ListProofs.
 End ListProofs.
 
 (* page sizes the overwrite can produce are never negative when the defaults are not *)
-Lemma tpl_apply_pagesize_nonneg fw p j q : 0 <= tpp_pagesize p -> tpl_apply fw p j = inr q -> 0 <= tpp_pagesize q.
+Lemma tpl_apply_pagesize_nonneg p j q : 0 <= tpp_pagesize p -> tpl_apply p j = inr q -> 0 <= tpp_pagesize q.
 Proof.
   unfold tpl_apply. intros Hp. destruct (tpj_pagesize j <? 0) eqn:E; [discriminate|]. apply Z.ltb_ge in E.
   destruct (tpl_apply_sort _ _ _) as [e|[c o]]; [discriminate|]. intros H. inversion H; subst. simpl.
-  destruct ((tpj_pagesize j =? 0) && fw); lia.
+  destruct (tpj_pagesize j =? 0); lia.
 Qed.
 
-Lemma tpl_apply_all_pagesize_nonneg fw l : forall p q, 0 <= tpp_pagesize p -> tpl_apply_all fw p l = inr q -> 0 <= tpp_pagesize q.
+Lemma tpl_apply_all_pagesize_nonneg l : forall p q, 0 <= tpp_pagesize p -> tpl_apply_all p l = inr q -> 0 <= tpp_pagesize q.
 Proof.
   induction l as [|[j|] l IH]; simpl; intros p q Hp H.
   - inversion H; subst; exact Hp.
-  - destruct (tpl_apply fw p j) as [e|p'] eqn:E; [discriminate|]. eapply IH; [|exact H]. eapply tpl_apply_pagesize_nonneg; eauto.
+  - destruct (tpl_apply p j) as [e|p'] eqn:E; [discriminate|]. eapply IH; [|exact H]. eapply tpl_apply_pagesize_nonneg; eauto.
   - eauto.
 Qed.
